@@ -4,7 +4,10 @@ Part 1: structural exploration of every type (profiles full / adds / fwd / deep)
 a word of the reference automaton.  Part 2 (nested documents): for every (parent type P, element-content child q):
 a complete checked P holding a CHECKED q whose own children go through every history of depth <= 2 (thorough 3);
 whenever P.to_string(intelligent_choice off/on) returns, the child sequence of P and of the nested q must both be
-accepted by their automata (validity of a tree is the conjunction of per-node validity: the final check recurses)."""
+accepted by their automata (validity of a tree is the conjunction of per-node validity: the final check recurses).
+Part 3 (second opinion): every complete document of the model-driven enumeration used by C08 (minimal elements,
+value shapes, attributes, content-model words with minimal children, for all classes) is validated by the JDK schema
+validator; any content-model error (cvc-complex-type.2.4.*) at any depth is a violation."""
 import itertools
 import collections
 import xml.etree.ElementTree as ET
@@ -65,11 +68,95 @@ def work_nested(arg):
                         vio.append({'scope': P, 'kind': 'invalid-child-sequence', 'key': [P, q, [list(x) for x in hist], ic, 'parent', tags]})
                     elif qtags is None or not nfa(tq).accepts(qtags):
                         vio.append({'scope': P, 'kind': 'invalid-child-sequence', 'key': [P, q, [list(x) for x in hist], ic, 'nested', qtags]})
+        # serialise - mutate the nested child - serialise again (checked tree): after one successful serialisation of
+        # P, every single removal inside a complete q; whenever P.to_string returns, both nodes must still be valid
+        def build_complete():
+            p = impl.fresh(P)
+            qel = None
+            for a in w:
+                m = impl.minimal(a)
+                if a == q and qel is None:
+                    qel = m
+                p.add_child(m)
+            return p, qel
+        b = call(build_complete)
+        if b.ok and call(b.value[0].to_string).ok:
+            nkids = len(b.value[1].get_children(ordered=False))
+            for i in range(nkids):
+                for ic in (False, True):
+                    p, qel = call(build_complete).value
+                    first = call(p.to_string)
+                    r = call(qel.remove, qel.get_children(ordered=False)[i])
+                    o = call(p.to_string, ic) if ic else call(p.to_string)
+                    oc['nested_serialisations'] += 1
+                    if not (first.ok and r.ok):
+                        continue
+                    if not o.ok:
+                        oc['refused'] += 1
+                        continue
+                    oc['returned'] += 1
+                    root = ET.fromstring(o.value)
+                    qs = [c for c in root if c.tag == q]
+                    qtags = [c.tag for c in qs[0]] if qs else None
+                    if qtags is None or not nfa(tq).accepts(qtags) or not nfa(P).accepts([c.tag for c in root]):
+                        vio.append({'scope': P, 'kind': 'invalid-child-sequence',
+                                    'key': [P, q, 'serialise-remove-serialise', i, ic, qtags]})
     return vio, dict(oc)
+
+
+def work_docs(arg):
+    """complete documents: the minimal element and every content-model word (length <= 2, capped) with minimal children"""
+    names, tier = arg
+    from mc.ref import xsd as R
+    out = []
+    cap = 120 if tier == 'quick' else 1500
+    for name in names:
+        kind, t = R.element_type(name)
+        cls = impl.class_for(name)
+        builds = [('min', lambda: impl.minimal(name))]
+        if kind == 'complex' and R.content_model(t) is not None:
+            for w in [w for w in nfa(t).words(2 if tier == 'quick' else 3) if w][:cap]:
+                def bw(w=w):
+                    e = cls(impl.valid_value(cls), **impl.req_attrs(cls, t))
+                    for a in w:
+                        e.add_child(impl.minimal(a))
+                    return e
+                builds.append(('word:' + ','.join(w), bw))
+        for rid, build in builds:
+            o = call(build)
+            if not o.ok:
+                continue
+            so = call(o.value.to_string)
+            if so.ok:
+                out.append((name, rid, so.value))
+    return out
 
 
 def run(tier):
     def extra(run_, tot, ostats, guards, samples):
+        extra_nested(run_, tot, ostats, guards, samples)
+        from mc import jdk
+        from mc.ref import xsd as R
+        names = sorted(n for n in R.partwise_elements() if len(R.partwise_elements()[n]) == 1)
+        docs_ = []
+        for part in core.pmap(work_docs, [(names[i:i + 6], tier) for i in range(0, len(names), 6)]):
+            docs_ += part
+        if jdk.available():
+            res = jdk.validate([d[2] for d in docs_])
+            for (name, rid, text), (ok, codes, msg) in zip(docs_, res):
+                ostats['jdk:documents'] += 1
+                cm = sorted({c for c in codes if c.startswith('cvc-complex-type.2.4')})
+                if cm:
+                    run_.violation(name, 'invalid-child-sequence', [name, rid, 'jdk', cm], observed=msg[:200], document=text[:400])
+                elif ok:
+                    ostats['jdk:valid'] += 1
+            tot['transitions'] += len(docs_)
+        else:
+            guards.append('JDK validator not built (./check setup)')
+        if ostats['jdk:valid'] < 500:
+            guards.append('fewer than 500 documents confirmed valid by the JDK')
+
+    def extra_nested(run_, tot, ostats, guards, samples):
         ps = pairs()
         for vio, oc in core.pmap(work_nested, [(ps[i:i + 4], NEST_DEPTH[tier]) for i in range(0, len(ps), 4)]):
             run_.add_violations(vio)
